@@ -3,7 +3,8 @@
     (specification: Reader/CursorSpec.v; models: Reader/CursorModel.v, Reader/BatchModel.v, mirrors of
     src/reader/page_reader.c:carquet_read_next_page, column_reader.c, batch_reader.c, file_reader.c). *)
 From Coq Require Import List ZArith.
-From Carquet Require Import Base.Res Reader.CursorSpec Reader.CursorModel Reader.ReaderProofs.
+From Carquet Require Import Base.Res Reader.CursorSpec Reader.CursorModel Reader.IoModeModel Reader.BatchModel
+     Reader.ReaderProofs Reader.BatchProofs.
 Import ListNotations.
 Local Open Scope Z_scope.
 
@@ -45,3 +46,50 @@ Theorem cursor_refines_pinned_refuted :
     run 3200171710%N false ops (open 1%N false pages) <> Ok (spec_outputs ops (rows_of 3200171710%N 1%N pages)).
 Proof. exact cursor_refines_pinned_refuted_proved. Qed.
 Print Assumptions cursor_refines_pinned_refuted.
+
+(** Batch reader (after the repair of DESIGN F7, commit "fix: batch reader: a zero-copy column delivers exactly the
+    rows of the batch"): for every valid file, non-empty projection (indices may repeat; names are resolved to indices
+    before, src/metadata/schema.c), batch size 1 <= bs < 2^31 and I/O mode, the batches are exactly the blocks of at
+    most bs rows of the projected columns, row group after row group, followed by END_OF_DATA. *)
+Theorem batch_refines : forall (A : Type) (garbage : A) m (f : @mfile A) proj bs,
+  proj <> [] -> Forall (rg_ok proj) f -> 0 < bs < 2^31 ->
+  batches garbage true true m f proj bs =
+  Ok (spec_batches (Z.to_nat bs) proj (table_of garbage f), E_END_OF_DATA).
+Proof. exact @batch_refines_proved. Qed.
+Print Assumptions batch_refines.
+
+(** every batch has one number of rows in all of its columns (values and bitmap) *)
+Theorem batch_aligned : forall (A : Type) (garbage : A) m (f : @mfile A) proj bs,
+  proj <> [] -> Forall (rg_ok proj) f -> 0 < bs < 2^31 ->
+  exists bl, batches garbage true true m f proj bs = Ok (bl, E_END_OF_DATA) /\ Forall batch_aligned_prop bl.
+Proof. exact @batch_aligned_proved. Qed.
+Print Assumptions batch_aligned.
+
+(** the concatenation of the batches of projected column j is the column-reader content of the file column it selects *)
+Theorem batch_concat : forall (A : Type) (garbage : A) m (f : @mfile A) proj bs,
+  proj <> [] -> Forall (rg_ok proj) f -> 0 < bs < 2^31 ->
+  exists bl, batches garbage true true m f proj bs = Ok (bl, E_END_OF_DATA) /\
+    forall j i, nth_error proj j = Some i -> batches_column bl j = table_column (table_of garbage f) i.
+Proof. exact @batch_concat_proved. Qed.
+Print Assumptions batch_concat.
+
+(** the null bitmap separates null from non-null rows as the definition levels do: bit set = null, for every column,
+    batch and I/O mode *)
+Theorem bitmap_iff_level : forall (A : Type) (garbage : A) m (f : @mfile A) proj bs,
+  proj <> [] -> Forall (rg_ok proj) f -> 0 < bs < 2^31 ->
+  exists bl, batches garbage true true m f proj bs = Ok (bl, E_END_OF_DATA) /\
+    forall j i, nth_error proj j = Some i ->
+      concat (map (fun b => match nth_error (b_cols b) j with Some c => bc_bitmap c | None => [] end) bl) =
+      map is_null (table_column (table_of garbage f) i).
+Proof. exact @bitmap_iff_level_proved. Qed.
+Print Assumptions bitmap_iff_level.
+
+(** The pinned tree violated alignment (DESIGN F7): REQUIRED zero-copy column in pages of 2,2,1 rows next to an
+    OPTIONAL column, batch_size 3, mmap mode: the first batch has 2 rows in one column and 3 in the other. *)
+Theorem batch_aligned_pinned_refuted :
+  exists (f : @mfile N) proj bs,
+    Forall (rg_ok proj) f /\ proj <> [] /\ 0 < bs < 2^31 /\
+    (forall bl c, batches 0%N true false Mmap f proj bs = Ok (bl, c) -> ~ Forall batch_aligned_prop bl) /\
+    batches 0%N true false Mmap f proj bs <> batches 0%N true false Fread f proj bs.
+Proof. exact batch_aligned_pinned_refuted_proved. Qed.
+Print Assumptions batch_aligned_pinned_refuted.
